@@ -353,7 +353,9 @@ Iter ==
                         \cup UNION {probeDue(o) : o \in {x \in O2 : x.kind = "announce" /\ quiet(x.fnk)}}
                         \* a competing probe for a name we are probing and have not announced: whether the tiebreak was won (next
                         \* probe within 250 ms) or lost (start over one second later), the daemon wakes within a second of it
-                        \cup {c2[x] + 1000 : x \in {y \in Dom(c2) : \E o \in O2 : o.kind = "announce" /\ (o.fnk = y \/ (o.fnk \in Dom(R2) /\ R2[o.fnk].hostk = y))}}
+                        \* (judged at the park of the iteration that read the competing probe: what the daemon made of it - and of the
+                        \* renames and fresh starts that may follow - cannot be told from the outside at later parks)
+                        \cup {c2[x] + 1000 : x \in {y \in competNow : \E o \in O2 : o.kind = "announce" /\ (o.fnk = y \/ (o.fnk \in Dom(R2) /\ R2[o.fnk].hostk = y))}}
                         \cup (IF s.ipint > 0 THEN {T + s.ipint} ELSE {}) : d > T}
          vWake == IF due = {} \/ ~Ev.alive \/ s.down THEN {}
                   ELSE V("C12.cover", Ev.wake >= 0 /\ Ev.wake <= (CHOOSE d \in due : \A e \in due : d <= e),
